@@ -67,6 +67,9 @@ MODELS = {
     "ktc_noise": ("charge_measurement", "pyxel.models.charge_measurement.ktc_noise", dict(node_capacitance=30.0e-15)),
     "output_node_noise_cmos": ("charge_measurement", "pyxel.models.charge_measurement.output_node_noise_cmos",
                                dict(readout_noise=5.0, readout_noise_std=1.0), dict(kind="cmos")),
+    # a stochastic model WITHOUT a `seed` parameter: only the pipeline seed makes it reproducible
+    "sar_adc": ("readout_electronics", "pyxel.models.readout_electronics.sar_adc_with_noise",
+                dict(strengths=[0.0] * 16, noises=[3.0e-4] * 16)),
     "emccd": ("charge_transfer", "pyxel.models.charge_transfer.multiplication_register",
               dict(total_gain=100, gain_elements=10)),
     # the functions that used to be covered by the bracket table only
@@ -284,9 +287,25 @@ def _build_mode(it):
         override[f"{section}.pipeline_seed"] = seed
     elif via != "ctor":
         raise ValueError(via)
-    det = _detector(it.get("det", "ccd"), rows=int(it.get("rows", 3)), temp=float(it.get("temp", 300.0)))
+    det = _shared_detector(it)
     pipe = pyx.make_pipeline(spec)
     return mode, det, pipe, (override or None)
+
+
+SHARED_DETECTORS = {}      # key given by the item (`share_det`) -> the ONE Detector object reused by later items
+
+
+def _shared_detector(it):
+    """A fresh detector for every item - unless the item names a shared one (`share_det`): then the same Detector
+    OBJECT is handed to every such run of this interpreter process, as in a notebook that calls run_mode twice."""
+    def fresh():
+        return _detector(it.get("det", "ccd"), rows=int(it.get("rows", 3)), temp=float(it.get("temp", 300.0)))
+    key = it.get("share_det")
+    if key is None:
+        return fresh()
+    if key not in SHARED_DETECTORS:
+        SHARED_DETECTORS[key] = fresh()
+    return SHARED_DETECTORS[key]
 
 
 # ------------------------------------------------------------------ calibration: islands observed from outside
@@ -472,10 +491,11 @@ def run_segment(items, state=None):
         np.random.random(7)
     else:
         np.random.set_state(_state_from_json(state))
+    SHARED_DETECTORS.clear()
     for it in items:
         vp.reset()
         pre = state_hash()
-        res, raised, top_draws, aux = None, None, [], None
+        res, raised, top_draws, aux, post_held = None, None, [], None, None
         op = it["op"]
         if op == "seed":
             np.random.seed(int(it["j"]))
@@ -488,9 +508,14 @@ def run_segment(items, state=None):
                 res, aux = _run_item(it)
             except Exception as ex:  # noqa: BLE001
                 raised = type(ex).__name__
+                # the state a caller sees in its `except` block, i.e. while the exception (and through its traceback
+                # every frame of the failed run) is still referenced
+                post_held = state_hash()
             finally:
                 BRACKET_LOG["active"] = False
         post = state_hash()
+        if post_held is not None and post_held != pre:
+            post = post_held
         inner, draws = [], []
         for e in vp.TRACE:
             if e.get("probe") == "rng":
